@@ -65,8 +65,19 @@ def run(ctx):
     b = p.body(PF)
     if b is not None:
         eb = ExprBuilder(b)
-        names = {d.get("name"): l for l, d in enumerate(b.locals) if d.get("name")}
-        cl = names.get("coefficients")
+        # the working buffer, by role: the variable that receives self.mc2b()
+        cl = None
+        for bb_, t_ in cm.local_calls(b, p, exact="vocoder::cepstrum::CepstrumT::mc2b"):
+            cl = t_["dest"]["local"]
+            for _ in range(4):
+                nxt = None
+                for l2 in b.defs():
+                    for d2 in b.defs().get(l2, []):
+                        if d2[1] != "term" and d2[2]["rv"]["k"] == "use" and d2[2]["rv"]["op"].get("k") in ("move", "copy") and d2[2]["rv"]["op"]["place"]["local"] == cl and not d2[2]["rv"]["op"]["place"]["proj"]:
+                            nxt = l2
+                if nxt is None or b.local_name(cl):
+                    break
+                cl = nxt
         # coefficients = mc2b(self)
         ds = [d for d in b.defs().get(cl, []) if not b.is_cleanup(d[0])] if cl is not None else []
         if len(ds) == 1 and ds[0][1] == "term" and show(eb.call(ds[0][2])) == "vocoder::cepstrum::CepstrumT::mc2b(self)":
